@@ -13,6 +13,8 @@ import (
 	"sort"
 	"strings"
 
+	"gogucheck/norm"
+
 	"golang.org/x/tools/go/packages"
 	"golang.org/x/tools/go/ssa"
 	"golang.org/x/tools/go/ssa/ssautil"
@@ -264,14 +266,41 @@ func (p *Program) FuncFile(fn *ssa.Function) string {
 
 // FuncsInFiles lists top-level (non-closure) functions declared in the given files
 // (paths relative to the module root), sorted by name.
+//
+// The scope follows the function, not the file: a function of the confirmed tree
+// belongs to the file it was confirmed in wherever it lives now (moving a function to
+// another file of its package changes nothing), and a function the confirmed tree does
+// not know belongs to the file it is in - or, when that file is new as well, to every
+// file scope of its directory (so that a writer added in a new file is still seen by
+// the who-writes rules of its package).
 func (p *Program) FuncsInFiles(files ...string) []*ssa.Function {
 	want := map[string]bool{}
+	wantDir := map[string]bool{}
 	for _, f := range files {
 		want[f] = true
+		wantDir[filepath.Dir(f)] = true
+	}
+	home := norm.ConfirmedFiles()
+	knownFile := map[string]bool{}
+	for _, f := range home {
+		knownFile[f] = true
 	}
 	var out []*ssa.Function
 	for _, fn := range p.Funcs {
-		if fn.Parent() == nil && want[p.FuncFile(fn)] {
+		if fn.Parent() != nil {
+			continue
+		}
+		cur := p.FuncFile(fn)
+		if strings.HasSuffix(cur, "_test.go") {
+			continue
+		}
+		if h, ok := home[p.FuncName(fn)]; ok && len(home) > 0 {
+			if want[h] {
+				out = append(out, fn)
+			}
+			continue
+		}
+		if want[cur] || (len(home) > 0 && !knownFile[cur] && wantDir[filepath.Dir(cur)]) {
 			out = append(out, fn)
 		}
 	}
